@@ -186,8 +186,13 @@ def gen_decl(rng):
         d["nocase"] = rng.chance(1, 2)
         d["fullword"] = rng.chance(1, 2)
     elif kind < 7:      # xor
-        r = rng.below(8)
-        if r == 0:
+        r = rng.below(9)
+        if r == 8:      # 129 .. 255 keys (the literal index of an `ascii wide` string exceeds one byte)
+            n_keys = rng.choice([129, 130, 200, 225, 254, 255, rng.range(129, 255)])
+            lo = rng.range(0, 256 - n_keys)
+            hi = lo + n_keys - 1
+            d["text"] = d["text"][:20]          # keep the 2 x 129..255 literals short (evaluation time)
+        elif r == 0:
             lo, hi = 0, 255
         elif r == 1:
             lo = hi = rng.below(256)
@@ -372,7 +377,7 @@ class C01(Prop):
     RULE = ("one text string per case: text classes (repeated byte, periodic, self-overlapping, all lower/upper, NULs, "
             "already-wide, arbitrary bytes, common bytes 00/20/CC/FF, valid UTF-8 with 2- and 3-byte characters) x lengths 1..40 x every legal modifier shape "
             "(ascii/wide/both x nocase x fullword; xor single key / sub-range / 0-255 / upper half / case-flipping "
-            "keys; base64 / base64wide / both with standard, permuted, non-injective, 2-symbol and arbitrary "
+            "keys / 129-255 keys with occurrences under the highest keys; base64 / base64wide / both with standard, permuted, non-injective, 2-symbol and arbitrary "
             "alphabets), both compiler profiles (DFA / contiguous NFA), match_max_length in {0,1,3,512}. Inputs are "
             "spliced from true encodings of the declaration, near misses (bit flip, case flip, deletion), "
             "overlapping / abutting / truncated occurrences and delimiter bytes (alnum / NUL / other at distance 1 "
@@ -409,6 +414,9 @@ class C01(Prop):
         encs = encodings(d)
         if not encs:
             encs = [(bytes.fromhex(d["text"]), False)]
+        if d["xor"] is not None and d["wide"] and d["xor"][1] - d["xor"][0] >= 128:
+            # occurrences xored with keys from the top of the range, wide ones above all
+            encs = encs + encs[-6:] * 8 + encs[len(encs) // 2 - 3:len(encs) // 2] * 3
         mem, has_occ, has_miss = gen_input(rng, d, encs)
         params = {}
         if rng.chance(1, 4):
